@@ -1,0 +1,150 @@
+//go:build verif
+
+// Contracts for the configuration-time rule-set editing directives (C17, C08, C01), checked by /verif/govc
+// (comment-only file; no code).
+package seclang
+
+// stored(options, r): r is a rule object INSIDE the rule group of the WAF (an element of its list, not a copy).
+//@ define stored(options *DirectiveOptions, r *corazawaf.Rule) bool := r != nil &&
+//@     (exists i int :: 0 <= i && i < len(options.WAF.Rules.rules) && r == options.WAF.Rules.rules[i])
+// newDisruptive(l): the parsed action list contains a disruptive action.
+//@ define newDisruptive(l []ruleAction) bool := exists k int :: 0 <= k && k < len(l) && l[k].Atype == plugintypes.ActionTypeDisruptive
+// unq(s): s without its surrounding double quotes (strings.Trim(s, "\""), cut positions named by the trusted Trim spec)
+//@ define dequoted(s string) string := s[trimLo(s, "\""):trimHi(s, "\"")]
+
+//@ func hasDisruptiveActions props C17,C08
+//@   modifies nothing
+//@   ensures exact: result <==> newDisruptive(actions)
+//@   loop 1
+//@     invariant bounds: -1 <= rangeindex && rangeindex < len(actions)
+//@     invariant noneSoFar: forall k int :: 0 <= k && k <= rangeindex ==> actions[k].Atype != plugintypes.ActionTypeDisruptive
+
+// ---------------------------------------------------------------- SecRuleRemoveById: every token of the list (C17)
+// Success is only returned after the loop over ALL tokens (`noEarlySuccess`: every return inside the loop is an error);
+// an iteration reaches its end only for a well-formed token (`wellFormed`: a number, or number-number with start <= end;
+// anything else is an error return), and the removal is called with exactly the token's number / bounds.
+//@ func directiveSecRuleRemoveByID props C17,C07
+//@   requires wafSet: options != nil && options.WAF != nil
+//@   ensures emptyRejected: len(options.Opts) == 0 ==> result == errEmptyOptions
+//@   at call "DeleteByID(" requires singleId: idOrRange == idsOrRanges[rangeindex+1] && idx == -1 && isnum(idOrRange) && arg(1) == atoi(idOrRange)
+//@   at call "DeleteByRange(" requires wholeRange: idOrRange == idsOrRanges[rangeindex+1] && idx >= 1 && isnum(idOrRange[0:idx]) && isnum(idOrRange[idx+1:len(idOrRange)]) &&
+//@       arg(1) == atoi(idOrRange[0:idx]) && arg(2) == atoi(idOrRange[idx+1:len(idOrRange)]) && arg(1) <= arg(2)
+//@   loop 1
+//@     invariant bounds: -1 <= rangeindex && rangeindex < len(idsOrRanges) && options.WAF == old(options.WAF) && options.WAF != nil
+//@     returns noEarlySuccess: !isnil(result)
+//@     step oneByOne: rangeindex == prev(rangeindex) + 1
+//@     step wellFormed: (idx == -1 && isnum(idsOrRanges[rangeindex])) ||
+//@         (idx >= 1 && isnum(idsOrRanges[rangeindex][0:idx]) && isnum(idsOrRanges[rangeindex][idx+1:len(idsOrRanges[rangeindex])]) &&
+//@          atoi(idsOrRanges[rangeindex][0:idx]) <= atoi(idsOrRanges[rangeindex][idx+1:len(idsOrRanges[rangeindex])]))
+
+// ---------------------------------------------------------------- SecRuleRemoveByTag / ByMsg (C17)
+// The whole option text is ONE tag / message (the directive takes a single argument); afterwards no rule of the group
+// carries it (DeleteByTag / DeleteByMsg: order-preserving filter, see corazawaf).
+//@ func directiveSecRuleRemoveByTag props C17,C07
+//@   requires wafSet: options != nil && options.WAF != nil
+//@   ensures emptyRejected: len(options.Opts) == 0 ==> result == errEmptyOptions
+//@   ensures accepted: len(options.Opts) > 0 ==> isnil(result)
+//@   at call "DeleteByTag(" requires wholeOption: arg(1) == options.Opts && len(arg(1)) > 0
+//@   ensures removed: len(options.Opts) > 0 ==> (forall j int, k int :: 0 <= j && j < len(options.WAF.Rules.rules) && 0 <= k && k < len(options.WAF.Rules.rules[j].Tags_) ==>
+//@       options.WAF.Rules.rules[j].Tags_[k] != options.Opts)
+//@   ensures notLonger: len(options.WAF.Rules.rules) <= len(old(options.WAF.Rules.rules))
+
+//@ func directiveSecRuleRemoveByMsg props C17,C07
+//@   requires wafSet: options != nil && options.WAF != nil
+//@   ensures emptyRejected: len(options.Opts) == 0 ==> result == errEmptyOptions
+//@   ensures accepted: len(options.Opts) > 0 ==> isnil(result)
+//@   at call "DeleteByMsg(" requires wholeOption: arg(1) == options.Opts && len(arg(1)) > 0
+//@   ensures removed: len(options.Opts) > 0 ==> (forall j int :: 0 <= j && j < len(options.WAF.Rules.rules) ==>
+//@       (isnil(options.WAF.Rules.rules[j].Msg) || macroStr(options.WAF.Rules.rules[j].Msg) != options.Opts))
+//@   ensures notLonger: len(options.WAF.Rules.rules) <= len(old(options.WAF.Rules.rules))
+
+// ---------------------------------------------------------------- SecRuleUpdateTargetById, one id (C17)
+// The new targets are parsed INTO THE STORED RULE: the parser's rule is the element of the group's list with that id.
+//@ func updateTargetBySingleID props C17,C07
+// (no precondition: the callers in directiveSecRuleUpdateTargetByID pass their own options on; the nil checks of options / options.WAF stay caller obligations)
+//@   ensures unknownIdRejected: (forall i int :: 0 <= i && i < len(old(options.WAF.Rules.rules)) ==> old(options.WAF.Rules.rules[i].ID_) != id) ==> !isnil(result)
+//@   at call "rp.ParseVariables(" requires intoStoredRule: stored(options, rp.rule) && rp.rule.ID_ == id
+//@   at call "rp.ParseVariables(" requires unquotedTargets: arg(1) == dequoted(variables)
+
+// ---------------------------------------------------------------- SecRuleUpdateTargetByTag: every rule carrying the tag (C17)
+// Every index of the list is visited (`oneByOne`, no successful return from inside the loop: `noEarlySuccess`); for an
+// index whose rule carries the tag the targets are parsed into THAT element of the list (`intoStoredRule`).
+//@ func directiveSecRuleUpdateTargetByTag props C17,C07
+//@   requires wafSet: options != nil && options.WAF != nil
+//@   at call "rp.ParseVariables(" requires intoStoredRule: 0 <= i && i < len(options.WAF.Rules.rules) && rp.rule == options.WAF.Rules.rules[i] &&
+//@       (exists k int :: 0 <= k && k < len(rp.rule.Tags_) && rp.rule.Tags_[k] == dequoted(tagAndvars[0]))
+//@   at call "rp.ParseVariables(" requires unquotedTargets: arg(1) == dequoted(tagAndvars[1])
+//@   loop 1
+//@     invariant listKept: options.WAF == old(options.WAF) && options.WAF != nil && rules == options.WAF.Rules.rules && len(tagAndvars) == 2
+//@     returns noEarlySuccess: !isnil(result)
+
+// ---------------------------------------------------------------- SecRuleUpdateActionById, one id (C17, C02)
+// The stored rule's disruptive actions are cleared exactly when the new list contains a disruptive action, then the new
+// actions are applied to the stored rule.
+//@ func updateActionBySingleID props C17,C02,C07
+//@   ensures unknownIdRejected: (forall i int :: 0 <= i && i < len(old(options.WAF.Rules.rules)) ==> old(options.WAF.Rules.rules[i].ID_) != id) ==> !isnil(result)
+//@   at call "parseActions(" requires unquotedActions: arg(1) == dequoted(actions)
+//@   at call "ClearDisruptiveActions(" requires onlyForDisruptiveUpdate: newDisruptive(parsedActions) && stored(options, arg(0)) && arg(0).ID_ == id
+//@   at call "applyParsedActions(" requires intoStoredRule: stored(options, rp.rule) && rp.rule.ID_ == id && arg(1) == parsedActions
+//@   at call "applyParsedActions(" requires clearedFirst: newDisruptive(parsedActions) ==>
+//@       (forall j int :: 0 <= j && j < len(rp.rule.actions) ==> actionType(rp.rule.actions[j].Function) != plugintypes.ActionTypeDisruptive)
+// (without a disruptive action in the update no rule's action list has been touched before the new actions are applied)
+//@   at call "applyParsedActions(" requires keptOtherwise: !newDisruptive(parsedActions) ==> (forall r *corazawaf.Rule :: r.actions == old(r.actions))
+
+// ---------------------------------------------------------------- SecMarker (C01, C17)
+// An operator-less rule carrying exactly the marker label, id 0, phase 0 (= evaluated in every phase), appended at the end.
+//@ func directiveSecMarker props C01,C17,C07
+//@   requires wafSet: options != nil && options.WAF != nil && !isnil(options.WAF.Logger)
+//@   ensures emptyRejected: len(options.Opts) == 0 ==> result == errEmptyOptions
+//@   at call "Rules.Add(" requires markerRule: arg(1) != nil && arg(1).SecMark_ == options.Opts && arg(1).ID_ == 0 && arg(1).Phase_ == 0 &&
+//@       arg(1).operator == nil && arg(1).Chain == nil && !arg(1).HasChain && len(arg(1).actions) == 0
+//@   ensures appendedAtEnd: isnil(result) ==> len(options.WAF.Rules.rules) == len(old(options.WAF.Rules.rules)) + 1 &&
+//@       options.WAF.Rules.rules[len(options.WAF.Rules.rules)-1].SecMark_ == options.Opts &&
+//@       options.WAF.Rules.rules[len(options.WAF.Rules.rules)-1].ID_ == 0 &&
+//@       options.WAF.Rules.rules[len(options.WAF.Rules.rules)-1].Phase_ == 0 &&
+//@       options.WAF.Rules.rules[len(options.WAF.Rules.rules)-1].operator == nil
+//@   ensures earlierKeepPlace: isnil(result) ==> (forall i int :: 0 <= i && i < len(old(options.WAF.Rules.rules)) ==>
+//@       options.WAF.Rules.rules[i].ID_ == old(options.WAF.Rules.rules[i].ID_) && options.WAF.Rules.rules[i].SecMark_ == old(options.WAF.Rules.rules[i].SecMark_))
+//@   ensures errorChangesNothing: !isnil(result) ==> options.WAF.Rules.rules == old(options.WAF.Rules.rules)
+
+// ---------------------------------------------------------------- SecAction / SecRule: text to the rule parser, result to the group
+//@ func directiveSecAction props C01,C16,C07
+//@   requires wafSet: options != nil && options.WAF != nil && !isnil(options.WAF.Logger)
+//@   ensures emptyRejected: len(options.Opts) == 0 ==> result == errEmptyOptions
+//@   at call "ParseRule(" requires textHandedOver: arg(0).Data == options.Opts && !arg(0).WithOperator && arg(0).WAF == options.WAF && arg(0).Raw == options.Raw
+//@   at call "Rules.Add(" requires parsedRuleAdded: arg(1) == rule && isnil(err) && arg(0) == options.WAF.Rules
+
+//@ func directiveSecRule props C01,C16,C07
+//@   requires wafSet: options != nil && options.WAF != nil && !isnil(options.WAF.Logger)
+//@   ensures emptyRejected: len(options.Opts) == 0 ==> result == errEmptyOptions
+//@   at call "ParseRule(" requires textHandedOver: arg(0).Data == options.Opts && arg(0).WithOperator && arg(0).WAF == options.WAF && arg(0).Raw == options.Raw
+//@   at call "Rules.Add(" requires parsedRuleAdded: arg(1) == rule && isnil(err) && arg(0) == options.WAF.Rules
+
+// ---------------------------------------------------------------- chain linking (C08, C01)
+// getLastRuleExpectingChain: only the LAST rule of the list can be a pending chain starter; it is returned exactly
+// when the deepest link reached from it (walk along .Chain) still expects a chain (HasChain set, no Chain yet).
+//@ func getLastRuleExpectingChain props C08,C01
+// (no precondition w != nil: ParseRule passes options.WAF on unchecked; the nil dereference of w stays a safety obligation)
+//@   modifies nothing
+//@   ensures emptyList: len(w.Rules.rules) == 0 ==> result == nil
+//@   ensures onlyTheLastRule: result != nil ==> len(w.Rules.rules) > 0 && result == w.Rules.rules[len(w.Rules.rules)-1]
+//@   ensures openStarter: len(w.Rules.rules) > 0 && w.Rules.rules[len(w.Rules.rules)-1].Chain == nil ==>
+//@       (result != nil <==> w.Rules.rules[len(w.Rules.rules)-1].HasChain)
+//@   loop 1
+//@     invariant onChain: parent != nil && lastRule == rules[len(rules)-1] && len(rules) > 0 && rules == w.Rules.rules
+//@     invariant atStart: parent == lastRule || lastRule.Chain != nil
+//@     after deepest: parent.Chain == nil
+
+// ParseRule, the block that attaches a rule to the pending chain: the new rule becomes the LAST link (it is stored in the
+// Chain field of the deepest link, which had none), gets ParentID_ = the starter's id, phase 0, and is NOT returned
+// (nil, nil: RuleGroup.Add(nil) adds nothing); a chained rule whose own action text contains a disruptive action is
+// rejected and the pending chain is discarded.
+//@ func ParseRule props C08,C01 nosafety
+//@   at "rule.ParentID_ = parent.ID_" requires noOwnDisruptive: !newDisruptive(parsed)
+//@   at "rule.ParentID_ = parent.ID_" requires starterIsLastRule: parent != nil && len(options.WAF.Rules.rules) > 0 &&
+//@       parent == options.WAF.Rules.rules[len(options.WAF.Rules.rules)-1]
+//@   at "lastChain.Chain = rule" requires becomesLastLink: lastChain != nil && lastChain.Chain == nil && rule.ParentID_ == parent.ID_ && rule.Phase_ == 0
+//@   at call "DiscardPendingChain(" requires ownDisruptiveRejected: newDisruptive(parsed) && parent != nil
+//@   loop 2
+//@     invariant walking: lastChain != nil
+//@     after deepest: lastChain.Chain == nil
